@@ -163,6 +163,9 @@ class ConcurrentExecutor(ABC, Generic[CallableType, ResultType]):
         # Event-driven state tracking for when the executor is done
         self._completion_event = threading.Event()
         self._suspend_exception: SuspendExecution | None = None
+        # Set when a branch or the timer thread dies with a BaseException that is not a
+        # suspension (e.g. BackgroundThreadError): re-raised by execute() in the caller.
+        self._fatal_exception: BaseException | None = None
 
         # ExecutionCounters will keep track of completion criteria and on-going counters
         min_successful = self.completion_config.min_successful or len(self.executables)
@@ -203,10 +206,16 @@ class ConcurrentExecutor(ABC, Generic[CallableType, ResultType]):
         ]
         self._completion_event.clear()
         self._suspend_exception = None
+        self._fatal_exception = None
 
         def resubmitter(executable_with_state: ExecutableWithState) -> None:
             """Resubmit a timed suspended task."""
-            execution_state.create_checkpoint()
+            try:
+                execution_state.create_checkpoint()
+            except BaseException as e:  # noqa: BLE001
+                # checkpointing is broken: wake the caller instead of dying silently in the timer thread
+                self._fail_fast(e)
+                raise
             submit_task(executable_with_state)
 
         thread_executor = ThreadPoolExecutor(max_workers=max_workers)
@@ -239,6 +248,11 @@ class ConcurrentExecutor(ABC, Generic[CallableType, ResultType]):
                 # Cancel futures that haven't started yet
                 for future in futures:
                     future.cancel()
+
+                # A branch (or the timer thread) hit a fatal, non-suspend BaseException such as
+                # BackgroundThreadError: propagate it to the caller instead of waiting forever.
+                if self._fatal_exception:
+                    raise self._fatal_exception
 
                 # Suspend execution if everything done and at least one of the tasks raised a suspend exception.
                 if self._suspend_exception:
@@ -325,6 +339,10 @@ class ConcurrentExecutor(ABC, Generic[CallableType, ResultType]):
         except Exception as e:  # noqa: BLE001
             exe_state.fail(e)
             self.counters.fail_task()
+        except BaseException as e:  # noqa: BLE001
+            # e.g. BackgroundThreadError: not a branch outcome, the whole operation must stop
+            self._fail_fast(e)
+            return
 
         # Check if execution should complete or suspend
         if self.counters.should_complete():
@@ -334,6 +352,12 @@ class ConcurrentExecutor(ABC, Generic[CallableType, ResultType]):
             if suspend_result.should_suspend:
                 self._suspend_exception = suspend_result.exception
                 self._completion_event.set()
+
+    def _fail_fast(self, error: BaseException) -> None:
+        """Record a fatal error (first one wins) and wake the thread blocked in execute()."""
+        if self._fatal_exception is None:
+            self._fatal_exception = error
+        self._completion_event.set()
 
     def _create_result(self) -> BatchResult[ResultType]:
         """
